@@ -621,6 +621,7 @@ func encodeAs(r *rand.Rand, b []byte, enc string) []byte {
 
 var c19Encodings = []string{"AUTO", "UTF8", "UTF8M", "UTF16", "UTF16BE", "UTF16LE", "UTF16BEM", "UTF16LEM", "SJIS"}
 var c19Delims = []string{",", "\t", ";", "|", " ", ":", "あ", "\"", "\\t", "a", "1", "\n"}
+
 // NB: "S[]" (single-line mode, no positions) never terminates (finding fixed-single-line-empty-positions): it is run once, from the corpus
 var c19Positions = []string{"SPACES", "spaces", "[1,3,5]", "[3]", "[]", "[1,2,3,4,5,6,7,8,9]", "S[2,4]", "S[1]", "[100]", "[4,8,4000000000]", "[2, 5]", "[0,1]", "[1,1]"}
 var c19JsonQueries = []string{"", "{}", "[]", "a", "a[0]", "a{b,c}", "a.b", "[0]", "a[]", "{a, b}", "{a as x, b.c}", "a{}", "[1]{a}"}
